@@ -6,10 +6,9 @@ does (``_uncollect_vars``, ``_delete_component``) and compare the two as *pairin
 """
 import ast
 import builtins
-import copy
 
 from sa.astutil import (norm, guards_of, reaching_value, walk_no_nested, parent, enclosing, stmt_of,
-                        preceding_stmts, always_exits)
+                        preceding_stmts)
 from sa.errors import AnalysisError
 from sa.report import RuleResult
 
@@ -30,10 +29,12 @@ EXPLANATION = (
     "_add_component to have a removal reachable from _delete_component (key domains such as keys(upblk_reads) == "
     "upblks are derived from the writers, not assumed).  R-C15-sites compares the direct sites of _add_component / "
     "_delete_component: class sets unioned into / subtracted from all_components, all_signals, all_method_ports, "
-    "all_named_objects, the population the same aggregates get at elaboration, and the symmetry of the "
-    "_collect_vars / _uncollect_vars call sites.  R-C15-keys decides key coverage: node removal from the adjacency "
+    "all_named_objects, the population the same aggregates get at elaboration, the symmetry of the "
+    "_collect_vars / _uncollect_vars call sites, the parent's field registry / list slot / connect_order, and the "
+    "agreement of the two hierarchy collectors.  R-C15-keys decides key coverage: node removal from the adjacency "
     "graphs deletes the node and its back edges, every set excluded from back-edge removal is itself deleted as "
-    "keys, and a keyed `-=` on a defaultdict aggregate prunes the emptied key.  R-C15-saved follows the seven "
+    "keys, a neighbour handed over by value (re-created on re-add) leaves the graph, and a keyed `-=` on a "
+    "defaultdict aggregate prunes the emptied key.  R-C15-saved follows the seven "
     "saved_* lists from the map they are filtered from, through the purge, the return tuple and both callers, to "
     "the map _add_component re-inserts them into (same map, eval-able root name).  R-C15-names compares the naming "
     "code duplicated in _add_component's list branch with NamedObject.__setattr_for_elaborate__ field by field "
@@ -62,6 +63,36 @@ def _dsl_attr(e):
     return None
 
 
+def _clone(n):
+    """copy of an ast subtree that does not follow the loader's _parent back links"""
+    if isinstance(n, list):
+        return [_clone(x) for x in n]
+    if not isinstance(n, ast.AST):
+        return n
+    new = type(n)()
+    for f in n._fields:
+        setattr(new, f, _clone(getattr(n, f, None)))
+    for a in n._attributes:
+        if hasattr(n, a):
+            setattr(new, a, getattr(n, a))
+    return new
+
+
+def _alpha(e):
+    """text of e with its names replaced by v0, v1, ... in order of first appearance (shape comparison of siblings)"""
+    names = {}
+
+    class T(ast.NodeTransformer):
+        def visit_Name(self, n):
+            names.setdefault(n.id, f"v{len(names)}")
+            return ast.Name(id=names[n.id], ctx=n.ctx)
+    e = _clone(e)
+    order = sorted((n for n in ast.walk(e) if isinstance(n, ast.Name)), key=lambda n: (n.lineno, n.col_offset))
+    for n in order:
+        names.setdefault(n.id, f"v{len(names)}")
+    return norm(T().visit(e))
+
+
 def _pure_chain(e):
     while isinstance(e, ast.Attribute):
         e = e.value
@@ -77,7 +108,7 @@ def _expand(e, at, depth=0):
                 if rv is not None and isinstance(rv, ast.Attribute) and _pure_chain(rv):
                     return _expand(rv, at, depth + 1)
             return n
-    return T().visit(copy.deepcopy(e))
+    return T().visit(_clone(e))
 
 
 def _params(fn):
@@ -217,10 +248,11 @@ def _level_functions(repo):
     return out
 
 
-def _canon_domain(repo, Y, cache={}):
+def _canon_domain(repo, Y):
     """canonical description of what iterating m._dsl.Y yields: ('elems', W) when provably the elements of the
     set field W, else ('iter', Y)."""
-    key = (id(repo), Y)
+    cache = repo.__dict__.setdefault('_c15_domains', {})
+    key = Y
     if key in cache:
         return cache[key]
     res = ('iter', Y)
@@ -260,7 +292,7 @@ def _canon_domain(repo, Y, cache={}):
 def _values_equal_elems(repo, Z):
     """W such that values(X._dsl.Z) == elems(X._dsl.W): every `X._dsl.Z[n] = B` has `X._dsl.W.add(B)` in the same
     block and every `X._dsl.W.add(B)` has the store next to it."""
-    zsites, cand = [], None
+    zsites = []
     for m, c, fn in _level_functions(repo):
         for st in ast.walk(fn):
             if isinstance(st, ast.Assign) and len(st.targets) == 1 and isinstance(st.targets[0], ast.Subscript):
@@ -338,6 +370,7 @@ class LevelFn:
         self.additive = additive
         self.effects = []
         self.prunes = []       # (agg, key) deletions of emptied entries
+        self.bad_prunes = []   # conditional deletions whose condition is not `the entry is empty`
         self._scan()
 
     # -- recognisers ------------------------------------------------------
@@ -418,6 +451,31 @@ class LevelFn:
                 conds.append(g)
         return cls_guard, conds
 
+    def _is_empty_test(self, t, polarity, agg, st):
+        """does `t` evaluating to `polarity` mean that AGG[k] is empty?  (not A[k] / len(A[k]) == 0 / A[k] == set())"""
+        def entry(e):
+            return isinstance(e, ast.Subscript) and self.agg_of(e.value, st) == agg
+
+        def length(e):
+            return isinstance(e, ast.Call) and norm(e.func) == 'len' and len(e.args) == 1 and entry(e.args[0])
+        if entry(t) or length(t):
+            return polarity is False
+        if isinstance(t, ast.Compare) and len(t.ops) == 1:
+            l, op, rgt = t.left, t.ops[0], t.comparators[0]
+            if length(l) and isinstance(rgt, ast.Constant) and rgt.value == 0:
+                if isinstance(op, ast.Eq):
+                    return polarity is True
+                if isinstance(op, (ast.NotEq, ast.Gt)):
+                    return polarity is False
+            if length(l) and isinstance(rgt, ast.Constant) and rgt.value == 1 and isinstance(op, ast.Lt):
+                return polarity is True
+            if entry(l) and norm(rgt) == 'set()':
+                if isinstance(op, ast.Eq):
+                    return polarity is True
+                if isinstance(op, ast.NotEq):
+                    return polarity is False
+        return False
+
     def _emit(self, kind, agg, key, val, st):
         guard, conds = self._guard(st)
         if not self.additive:
@@ -431,7 +489,10 @@ class LevelFn:
                 # `if not AGG[k]: del AGG[k]`  prunes an emptied entry
                 if kind == 'del' and any(isinstance(n, ast.Subscript) and self.agg_of(n.value, st) == agg
                                          for n in ast.walk(t)):
-                    self.prunes.append((agg, key))
+                    if self._is_empty_test(t, g.polarity, agg, st):
+                        self.prunes.append((agg, key))
+                    else:
+                        self.bad_prunes.append((agg, key, st, g))
                     return
                 rest.append(g)
             if rest:
@@ -812,15 +873,15 @@ class SetDom:
         return acc
 
 
-def _fmt_atoms(s):
+def _fmt_atoms(s, roots=True):
     if s is None:
         return '?'
     out = []
     for a in sorted(s, key=repr):
         if a[0] == 'coll':
-            out.append(f"{a[2]}@{a[1]}")
+            out.append(f"{a[2]}@{a[1]}" if roots else a[2])
         else:
-            out.append(f"{a[1]}-of({_fmt_atoms(a[2])})")
+            out.append(f"{a[1]}-of({_fmt_atoms(a[2], roots)})")
     return '{' + ', '.join(out) + '}'
 
 
@@ -975,7 +1036,7 @@ def rule_sites(repo):
             families = [ecls] if ecls != 'NamedObject' else sorted(c for c, b in tab.items() if 'NamedObject' in b)
             if not families:
                 raise AnalysisError("no NamedObject families found in pymtl3/dsl")
-            for side, cs, qual in (('added', ca, ADD_QUAL), ('removed', cr, DEL_QUAL)):
+            for side, cs, qual, sites in (('added', ca, ADD_QUAL, A), ('removed', cr, DEL_QUAL, R)):
                 for fam in families:
                     c2 = f"{agg}: objects of class {fam} {side}"
                     if _covers(tab, cs, fam):
@@ -985,7 +1046,7 @@ def rule_sites(repo):
                         r.bad(m, qual, c2, f"elaboration fills {agg} with every {ecls} (family {fam} included) but "
                               f"{qual.split('.')[1]} only {verb} {sorted(cs)}: after replace_component the "
                               f"{fam} objects of the old component stay in {agg} / those of the new one are missing "
-                              f"(e.g. get_all_object_filter returns stale {fam} objects)", est.lineno)
+                              f"(e.g. get_all_object_filter returns stale {fam} objects)", sites[0][1].lineno if sites else 0)
     # call symmetry
     cc = [c for c in _call_sites(addf, '_collect_vars')]
     uc = [c for c in _call_sites(delf, '_uncollect_vars')]
@@ -1019,7 +1080,7 @@ def rule_sites(repo):
             gs = [g for g in _all_guards(call, fn) if g.kind in ('if', 'exit')]
             if gs:
                 gt = ' and '.join(f"{'' if g.polarity else 'not '}{norm(g.test)}" for g in gs)
-                r.bad(m, qual, f"{norm(call)} guarded by {gt}",
+                r.bad(m, qual, f"{call.func.attr} call guarded by {gt.replace(root, '<root>')}",
                       f"the call is conditional ({gt}) while the opposite half runs for "
                       f"every component: in the excluded situation the components below `{root}` keep their update "
                       f"blocks / metadata in the top-level aggregates (stale writers -> later net resolution touches "
@@ -1037,7 +1098,77 @@ def rule_sites(repo):
         r.bad(m, DEL_QUAL, 'delattr + NamedObject_fields.remove', "a plain-field child must be deleted from the parent "
               "and from parent._dsl.NamedObject_fields under the same name, otherwise re-adding it raises "
               "FieldReassignError / AttributeError", delf.lineno)
-    r.require_floor(14)
+    # list slot: cleared after the index walk on removal, required to be None on insertion; same branch criterion
+    t = None
+    for st in delf.body:
+        if isinstance(st, ast.If) and '_my_indices' in norm(st.test):
+            t = st
+    cleared = [s2 for s2 in (walk_no_nested(t) if t is not None else []) if isinstance(s2, ast.Assign)
+               and isinstance(s2.targets[0], ast.Subscript) and isinstance(s2.value, ast.Constant) and s2.value.value is None]
+    asserted = [s2 for s2 in walk_no_nested(addf) if isinstance(s2, ast.Assert) and isinstance(s2.test, ast.Compare)
+                and isinstance(s2.test.left, ast.Subscript) and norm(s2.test.comparators[0]) == 'None'
+                and isinstance(s2.test.ops[0], ast.Is)]
+    if t is not None and norm(t.test) == f"{old_obj}._dsl._my_indices" and cleared and asserted and \
+            _alpha(cleared[0].targets[0]) == _alpha(asserted[0].test.left):
+        r.ok(m, DEL_QUAL, f"{norm(cleared[0])} (list element) <-> {norm(asserted[0].test)}")
+    else:
+        r.bad(m, DEL_QUAL, 'list slot cleared', "for a list element (non-empty _my_indices) the slot reached by the index walk "
+              "must be set to None, which is what _add_component asserts before storing the new element", delf.lineno)
+    # the parent's connect_order is rebuilt without pairs touching a removed signal
+    dom = SetDom(delf)
+    co = [s2 for s2 in walk_no_nested(delf) if isinstance(s2, ast.For) and _dsl_attr(s2.iter) and _dsl_attr(s2.iter)[1] == 'connect_order']
+    okco = False
+    if len(co) == 1 and isinstance(co[0].target, ast.Tuple) and len(co[0].target.elts) == 2:
+        a, b = [norm(x) for x in co[0].target.elts]
+        apps = [n for n in walk_no_nested(co[0]) if isinstance(n, ast.Call) and isinstance(n.func, ast.Attribute)
+                and n.func.attr == 'append' and len(n.args) == 1 and norm(n.args[0]) == f"({a}, {b})"]
+        if len(apps) == 1:
+            exa, _ = _excluded_sets(stmt_of(apps[0]), co[0], a)
+            exb, _ = _excluded_sets(stmt_of(apps[0]), co[0], b)
+            sa_, sb_ = [dom.of(x) for x in exa], [dom.of(x) for x in exb]
+            need = ('coll', old_obj, 'Signal')
+            lst = norm(apps[0].func.value)
+            stored = [s2 for s2 in delf.body if isinstance(s2, ast.Assign) and _dsl_attr(s2.targets[0]) and
+                      _dsl_attr(s2.targets[0])[1] == 'connect_order' and norm(s2.value) == lst and
+                      _dsl_attr(s2.targets[0])[0] == _dsl_attr(co[0].iter)[0]]
+            okco = any(x and need in x for x in sa_) and any(x and need in x for x in sb_) and bool(stored)
+            if okco and not any(x and ('coll', old_obj, 'MethodPort') in x for x in sa_):
+                r.observations.append("connect_order keeps pairs of removed method ports (acknowledged TODO in the source); "
+                                      "only signal pairs are required here")
+    if okco:
+        r.ok(m, DEL_QUAL, "parent connect_order rebuilt without pairs whose either end is a removed signal")
+    else:
+        r.bad(m, DEL_QUAL, 'connect_order filter', "parent._dsl.connect_order must be replaced by the pairs with NEITHER end in "
+              "the removed signals; otherwise get_connect_order() (used by translation) still lists connections to deleted "
+              "signals after the replacement", delf.lineno)
+    # the two collectors used for the added / removed sets traverse the hierarchy identically
+    nm = repo.mod(NAMED)
+
+    def traversal(q):
+        f = nm.get_func(q)
+        w = [n for n in walk_no_nested(f) if isinstance(n, ast.While)]
+        if len(w) != 1:
+            raise AnalysisError(f"{q}: traversal loop not found")
+        ifs = [n for n in w[0].body if isinstance(n, ast.If) and _isinstance_test(n.test)]
+        if len(ifs) != 1:
+            raise AnalysisError(f"{q}: traversal dispatch not found")
+        fors = [n for n in ifs[0].body if isinstance(n, ast.For) and '__dict__' in norm(n.iter)]
+        if len(fors) != 1:
+            raise AnalysisError(f"{q}: child enumeration not found")
+        init = [norm(x.value) for x in f.body if isinstance(x, ast.Assign) and isinstance(x.value, ast.List)
+                and norm(x.value) == f"[{_params(f)[0]}]"]
+        return (norm(w[0].test), norm(ifs[0].test), norm(fors[0]), norm(ifs[0].orelse), tuple(init),
+                norm([x for x in w[0].body if x is not ifs[0]]))
+    ta, tb = traversal('NamedObject._collect_all'), traversal('NamedObject._collect_all_single')
+    if ta == tb:
+        r.ok(nm, 'NamedObject._collect_all', "same traversal as _collect_all_single (children, slices, lists)")
+    else:
+        diff = [i for i in range(len(ta)) if ta[i] != tb[i]]
+        r.bad(nm, 'NamedObject._collect_all', 'traversal agreement with _collect_all_single',
+              f"the two collectors enumerate the hierarchy differently (part {diff}): `{ta[diff[0]][:120]}` vs "
+              f"`{tb[diff[0]][:120]}`; the sets added by _add_component and removed by _delete_component are computed by "
+              f"different collectors and would no longer cover the same objects", 0)
+    r.require_floor(17)
     return r
 
 
@@ -1087,7 +1218,8 @@ def rule_keys(repo):
                     g = norm(_expand(t.value, st))
                     for a in _ancestors(st, fn):
                         if isinstance(a, ast.For) and isinstance(a.target, ast.Name) and a.target.id == t.slice.id:
-                            loops.append((g, a, t.slice.id, dom.of(a.iter), st))
+                            if not (isinstance(a.iter, ast.Subscript) and norm(_expand(a.iter.value, a)) == g):
+                                loops.append((g, a, t.slice.id, dom.of(a.iter), st))   # else: a neighbour, not a node loop
                             break
         elif isinstance(st, ast.Expr) and isinstance(st.value, ast.Call) and isinstance(st.value.func, ast.Attribute) \
                 and st.value.func.attr == 'pop' and st.value.args and isinstance(st.value.args[0], ast.Name) \
@@ -1095,7 +1227,8 @@ def rule_keys(repo):
             g = norm(_expand(st.value.func.value, st))
             for a in _ancestors(st, fn):
                 if isinstance(a, ast.For) and isinstance(a.target, ast.Name) and a.target.id == st.value.args[0].id:
-                    loops.append((g, a, a.target.id, dom.of(a.iter), st))
+                    if not (isinstance(a.iter, ast.Subscript) and norm(_expand(a.iter.value, a)) == g):
+                        loops.append((g, a, a.target.id, dom.of(a.iter), st))
                     break
     graphs = sorted({g for g, *_ in loops if g.endswith('adjacency')})
     decl = _declared(repo)
@@ -1151,9 +1284,58 @@ def rule_keys(repo):
                     raise AnalysisError(f"R-C15-keys: back-edge removal `{norm(st)}` is conditional on "
                                         f"{[norm(t) for t, _ in other]}; outside the domain")
                 r.ok(m, DEL_QUAL, f"{norm(st)} for every neighbour of a removed key of {g}")
+                # a surviving neighbour that is saved *by value* (o = o._dsl.<attr>) is re-created as a new object by
+                # the re-add path, so the old object must leave the graph
+                for rb in walk_no_nested(inner):
+                    if isinstance(rb, ast.Assign) and len(rb.targets) == 1 and isinstance(rb.targets[0], ast.Name) \
+                            and rb.targets[0].id == o and _dsl_attr(rb.value) and _dsl_attr(rb.value)[0] == o:
+                        cls = [it[1][0] for gg in guards_of(rb, stop=inner) for it in [_isinstance_test(gg.test)]
+                               if it and it[0] == o and gg.polarity]
+                        gone = [d for d in preceding_stmts(rb)
+                                if any(a is inner for a in _ancestors(d, fn)) and
+                                ((isinstance(d, ast.Delete) and any(isinstance(t, ast.Subscript) and norm(t.slice) == o and
+                                                                    norm(_expand(t.value, d)) == g for t in d.targets)) or
+                                 (isinstance(d, ast.Expr) and isinstance(d.value, ast.Call) and isinstance(d.value.func, ast.Attribute)
+                                  and d.value.func.attr == 'pop' and d.value.args and norm(d.value.args[0]) == o
+                                  and norm(_expand(d.value.func.value, d)) == g))]
+                        what = '/'.join(cls) or 'object'
+                        cons2 = f"{g.split('.')[-1]}: surviving {what} neighbour saved by value ({norm(rb.value).replace(o, '<nbr>')})"
+                        if gone:
+                            r.ok(m, DEL_QUAL, cons2 + " and deleted as key")
+                            # add_connections re-creates an all_adjacency key for EVERY key of the host's adjacency
+                            # (defaultdict), so the old object must leave the host-level graph as well
+                            for g2 in [x for x in want if x != g]:
+                                host_del = False
+                                for _, loop2, x2, R2, _d in [l for l in loops if l[0] == g2]:
+                                    for d in walk_no_nested(loop2):
+                                        tg = None
+                                        if isinstance(d, ast.Delete) and isinstance(d.targets[0], ast.Subscript):
+                                            tg = d.targets[0]
+                                        elif isinstance(d, ast.Expr) and isinstance(d.value, ast.Call) and \
+                                                isinstance(d.value.func, ast.Attribute) and d.value.func.attr == 'pop' and d.value.args:
+                                            tg = ast.Subscript(value=d.value.func.value, slice=d.value.args[0])
+                                        if tg is None or norm(_expand(tg.value, d)) != g2 or not isinstance(tg.slice, ast.Name) \
+                                                or tg.slice.id == x2:
+                                            continue
+                                        gcls = [it[1][0] for gg in guards_of(d, stop=loop2) for it in [_isinstance_test(gg.test)]
+                                                if it and it[0] == tg.slice.id and gg.polarity]
+                                        if set(gcls) & set(cls) or not cls:
+                                            host_del = True
+                                cons3 = f"{g2.split('.')[-1]} (host level): old {what} neighbour deleted as key"
+                                if host_del:
+                                    r.ok(m, DEL_QUAL, cons3)
+                                else:
+                                    r.bad(m, DEL_QUAL, cons3, f"the old {what} is deleted from {g} but stays a key of {g2}; "
+                                          f"add_connections copies every key of the host's adjacency into all_adjacency, so the "
+                                          f"stale {what} key (with an empty set) reappears after the replacement", rb.lineno)
+                        else:
+                            r.bad(m, DEL_QUAL, cons2 + " but the old object stays as key",
+                                  f"`{norm(rb)}` hands the neighbour to _add_component by value, so the re-add path creates a "
+                                  f"new {what}; the old one keeps its (now empty) entry in {g} and in its owner's registry: "
+                                  f"after replace_component the adjacency dict has one more {what} key than a fresh build", rb.lineno)
                 for S in ex:
                     sv = dom.of(S)
-                    cons = f"{g}: `{norm(S)}` excluded from back-edge removal"
+                    cons = f"{g.split('.')[-1]}: {_fmt_atoms(sv, False) if sv is not None else norm(S)} excluded from back-edge removal"
                     if sv is None:
                         raise AnalysisError(f"R-C15-keys: cannot evaluate excluded set {norm(S)}")
                     if sv <= deleted:
@@ -1184,10 +1366,16 @@ def rule_keys(repo):
         lf = LevelFn(repo, fm, fc, f, decl, False)
         for e in lf.effects:
             if e.kind == 'diff' and e.key is not None and decl.get(e.agg, ('?',))[0] in ('defaultdict', 'dict'):
-                if (e.agg, e.key) in lf.prunes:
+                bp = [b for b in lf.bad_prunes if b[0] == e.agg]
+                if bp:
+                    r.bad(fm, lf.qual, f"{e.agg}: entry deleted under {bp[0][3]}",
+                          f"`{norm(bp[0][2])}` runs when {bp[0][3]}, which is not `the entry became empty`: constraints "
+                          f"contributed by other components under the same key are dropped (or the emptied key stays)",
+                          bp[0][2].lineno)
+                elif (e.agg, e.key) in lf.prunes:
                     r.ok(fm, lf.qual, f"{e.text} ; emptied entry pruned")
                 else:
-                    r.bad(fm, lf.qual, f"{e.text} leaves the emptied entry",
+                    r.bad(fm, lf.qual, f"{e.agg}: keyed `-=` leaves the emptied entry",
                           f"`{e.text}` empties the set but the key (an object of the removed component) stays in "
                           f"{e.agg}: get_all_explicit_constraints() shows a `<deleted>` key with an empty set that a "
                           f"fresh build does not have; prune it (`if not {e.agg}[k]: del ...`)", e.node.lineno)
@@ -1407,9 +1595,28 @@ def rule_saved(repo):
             else:
                 r.bad(m, ADD_QUAL, f"for {', '.join(tv)} in {p}", f"saved connections are not replayed pairwise "
                       f"(neighbour, eval(name)) through {aps[1]}.add_connections", lp.lineno)
+    acf = m.get_func('Component.add_connections')
+    me = _params(acf)[0]
+    prop = False
+    for lp in [st for st in walk_no_nested(acf) if isinstance(st, ast.For)]:
+        if isinstance(lp.iter, ast.Call) and isinstance(lp.iter.func, ast.Attribute) and lp.iter.func.attr == 'items' and \
+                _dsl_attr(lp.iter.func.value) == (me, 'adjacency') and isinstance(lp.target, ast.Tuple) and len(lp.target.elts) == 2:
+            k, v = [norm(x) for x in lp.target.elts]
+            for n in walk_no_nested(lp):
+                if isinstance(n, ast.Call) and isinstance(n.func, ast.Attribute) and n.func.attr == 'update' and \
+                        isinstance(n.func.value, ast.Subscript) and _top_agg(n.func.value.value, lp) == 'all_adjacency' and \
+                        norm(n.func.value.slice) == k and [norm(a) for a in n.args] == [v]:
+                    prop = True
+                if isinstance(n, ast.AugAssign) and isinstance(n.op, ast.BitOr) and isinstance(n.target, ast.Subscript) and \
+                        _top_agg(n.target.value, lp) == 'all_adjacency' and norm(n.target.slice) == k and norm(n.value) == v:
+                    prop = True
+    if prop:
+        r.ok(m, 'Component.add_connections', "replayed connections are copied from the host's adjacency into all_adjacency")
+    else:
+        r.bad(m, 'Component.add_connections', 'all_adjacency[x].update(adjs)', "connections replayed at the parent never reach "
+              "the top-level all_adjacency: the nets recomputed after the replacement do not contain the new component's ports",
+              acf.lineno)
     # eval-able heads
-    locals_add = set(aps) | {t.id for st in walk_no_nested(addf) if isinstance(st, ast.Assign) for t in st.targets
-                             if isinstance(t, ast.Name)}
     for L, hs in sorted(heads.items()):
         for h in sorted(hs):
             cons = f"{L}: names start with `{h}`"
@@ -1521,7 +1728,7 @@ class _Region:
                             (rv is not None and _str_parts(rv) is not None):
                         return self.visit(_expand(rv, at))
                 return n
-        return T().visit(copy.deepcopy(e))
+        return T().visit(_clone(e))
 
     def canon(self, e, at):
         return _canon(self.rewrite(e, at)).replace('ELABTOP._dsl.elaborate_top', 'ELABTOP')
@@ -1645,8 +1852,6 @@ def _local_names(fn):
             elif isinstance(n, (ast.Import, ast.ImportFrom)):
                 for al in n.names:
                     out.add((al.asname or al.name).split('.')[0])
-        for n in ast.iter_child_nodes(st) if False else ():
-            pass
     # nested defs / classes bind their own name in this scope
     todo = list(body)
     while todo:
@@ -1821,7 +2026,10 @@ def rule_names(repo):
         bad = _unresolved(repo, fm, f)
         scanned += 1
         if bad:
-            for name, node in sorted({(n, x.lineno): (n, x) for n, x in bad}.values(), key=lambda t: t[1].lineno):
+            first = {}
+            for n, x in sorted(bad, key=lambda t: t[1].lineno):
+                first.setdefault(n, x)
+            for name, node in first.items():
                 r.bad(fm, q, f"name {name}", f"`{name}` is used in {q} but is neither a local, a module-level name / import of "
                       f"{fm.rel} nor a builtin: NameError when this path runs (e.g. a replaced list element with set_param "
                       f"overrides)", node.lineno)
@@ -1844,7 +2052,6 @@ def rule_flush(repo):
     m = repo.mod(COMP)
     addf = m.get_func(ADD_QUAL)
     aps = _params(addf)
-    seqs = {}
     for qual in ('Component.replace_component', 'Component.replace_component_with_obj'):
         fn = m.get_func(qual)
         ps = _params(fn)
@@ -1982,8 +2189,378 @@ def rule_flush(repo):
         r.ok(m, 'Component.check', '_check_valid_dsl_code()', nontrivial=False)
     else:
         r.bad(m, 'Component.check', '_check_valid_dsl_code()', "check() no longer runs the structural checks", cf.lineno)
-    r.require_floor(22)
+    r.require_floor(16)
     return r
 
 
 RULES = [rule_inverse, rule_sites, rule_keys, rule_saved, rule_names, rule_flush]
+
+
+# ---------------------------------------------------------------------------
+# self-test of the checker (thorough tier)
+L1 = 'pymtl3/dsl/ComponentLevel1.py'
+L2 = 'pymtl3/dsl/ComponentLevel2.py'
+L3 = 'pymtl3/dsl/ComponentLevel3.py'
+L4 = 'pymtl3/dsl/ComponentLevel4.py'
+
+
+def _m(name, file, old, new, rule=None, count=1):
+    return dict(name=name, file=file, old=old, new=new, rule=rule, count=count)
+
+
+MUTANTS = [
+    # --- the three defects this property found (already fixed in /repo), re-introduced
+    _m('D5-wr-subtracts-rd', L2, "s._dsl.all_WR_U_constraints[k] -= m._dsl.WR_U_constraints[k]",
+       "s._dsl.all_WR_U_constraints[k] -= m._dsl.RD_U_constraints[k]", 'R-C15-inverse'),
+    _m('D6-level4-no-uncollect', L4, """  def _uncollect_vars( s, m ):
+    super()._uncollect_vars( m )
+    if isinstance( m, ComponentLevel4 ):
+      s._dsl.all_update_once   -= m._dsl.update_once
+      s._dsl.all_M_constraints -= m._dsl.M_constraints
+""", "", 'R-C15-inverse'),
+    _m('D12-paramtreenode-not-imported', COMP, "from .NamedObject import NamedObject, ParamTreeNode",
+       "from .NamedObject import NamedObject", 'R-C15-names'),
+    # --- the defects repaired by fix_1..fix_4 (Const keys, emptied constraint keys, interfaces, placeholder), re-introduced.
+    #     They are anchored on the repaired text and are reported as stale (not as survivors) on a tree without the repair.
+    _m('F1-removed-consts-stay-as-keys', COMP, """        # Constants of the removed components are keys of all_adjacency
+        if y in top._dsl.all_adjacency:
+          del top._dsl.all_adjacency[y]
+""", "", 'R-C15-keys'),
+    _m('F1-by-value-const-stays-in-all-adjacency', COMP, "                del top._dsl.all_adjacency[other]\n", "", 'R-C15-keys'),
+    _m('F1-by-value-const-stays-in-host-adjacency', COMP, """              if isinstance( other, Const ):
+                del parent._dsl.adjacency[other]
+                parent._dsl.consts.remove( other )
+""", "", 'R-C15-keys'),
+    _m('F2-rd-emptied-key-stays', L2, """        if not s._dsl.all_RD_U_constraints[k]:
+          del s._dsl.all_RD_U_constraints[k]
+""", "", 'R-C15-keys'),
+    _m('F2-wr-emptied-key-stays', L2, """        if not s._dsl.all_WR_U_constraints[k]:
+          del s._dsl.all_WR_U_constraints[k]
+""", "", 'R-C15-keys'),
+    _m('F2-prune-condition-inverted', L2, "        if not s._dsl.all_WR_U_constraints[k]:\n", "        if s._dsl.all_WR_U_constraints[k]:\n", 'R-C15-keys'),
+    _m('F2-prune-unconditional', L2, """        if not s._dsl.all_RD_U_constraints[k]:
+          del s._dsl.all_RD_U_constraints[k]
+""", """        del s._dsl.all_RD_U_constraints[k]
+""", 'R-C15'),
+    _m('F3-interfaces-not-removed', COMP, "      top._dsl.all_named_objects -= removed_interfaces\n", "", 'R-C15-sites'),
+    _m('F3-interfaces-not-added', COMP, "    top._dsl.all_named_objects |= added_interfaces\n", "", 'R-C15-sites'),
+    _m('F3-interfaces-removed-from-wrong-root', COMP, "removed_interfaces = foo._collect_all_single(", "removed_interfaces = parent._collect_all_single(", 'R-C15-sites'),
+    _m('F4-placeholder-skips-uncollect', COMP, """      # A placeholder may contain components too, so always uncollect
+      for x in removed_components:
+        # remove consts
+        removed_consts |= x._dsl.consts
+        # uncollect variables
+        top._uncollect_vars( x )
+""", """      if isinstance( foo, Placeholder ):
+        # No need to uncollect vars from a placeholder
+        assert not foo._dsl.consts
+      else:
+        for x in removed_components:
+          # remove consts
+          removed_consts |= x._dsl.consts
+          # uncollect variables
+          top._uncollect_vars( x )
+""", 'R-C15-sites'),
+    # --- pairing of collect / uncollect
+    _m('l1-uu-constraints-not-removed', L1, "      s._dsl.all_U_U_constraints -= m._dsl.U_U_constraints", "      pass", 'R-C15-inverse'),
+    _m('l4-once-subtracts-wrong-set', L4, "s._dsl.all_update_once   -= m._dsl.update_once",
+       "s._dsl.all_update_once   -= m._dsl.M_constraints", 'R-C15-inverse'),
+    _m('l2-upblk-calls-not-deleted', L2, "        del s._dsl.all_upblk_calls[k]\n", "        pass\n", 'R-C15-inverse'),
+    _m('l2-uncollect-drops-super', L2, "    super()._uncollect_vars( m )\n", "", 'R-C15-inverse'),
+    _m('l4-uncollect-drops-super', L4, "    super()._uncollect_vars( m )\n", "", 'R-C15-inverse'),
+    _m('l2-uncollect-wrong-class-guard', L2, """    super()._uncollect_vars( m )
+
+    if isinstance( m, ComponentLevel2 ):""", """    super()._uncollect_vars( m )
+
+    if isinstance( m, Placeholder ):""", 'R-C15-inverse'),
+    _m('l2-metadata-deleted-for-ff-blocks-only', L2, """      for k in m._dsl.upblks:
+        del s._dsl.all_upblk_reads[k]""", """      for k in m._dsl.update_ff:
+        del s._dsl.all_upblk_reads[k]""", 'R-C15-inverse'),
+    _m('l1-hostobj-not-deleted', L1, """      for k in m._dsl.upblks:
+        del s._dsl.all_upblk_hostobj[ k ]
+""", "", 'R-C15-inverse'),
+    _m('l2-rd-keyed-by-wr-keys', L2, """      for k in m._dsl.RD_U_constraints:
+        s._dsl.all_RD_U_constraints[k] -= m._dsl.RD_U_constraints[k]""", """      for k in m._dsl.WR_U_constraints:
+        s._dsl.all_RD_U_constraints[k] -= m._dsl.RD_U_constraints[k]""", 'R-C15-inverse'),
+    _m('l2-upblks-registry-diverges', L1, "    s._dsl.upblks.add( blk )\n", "    if not isinstance( s, Placeholder ): s._dsl.upblks.add( blk )\n",
+       'R-C15-inverse'),
+    _m('l3-collect-new-aggregate-never-removed', L3, """        all_ajd[k] |= v
+""", """        all_ajd[k] |= v
+      s._dsl.all_signals |= m._dsl.consts
+""", 'R-C15-inverse'),
+    # --- direct sites of _add_component / _delete_component
+    _m('delete-keeps-method-ports', COMP, "      top._dsl.all_method_ports  -= removed_method_ports\n", "", 'R-C15'),
+    _m('delete-named-objects-keeps-components', COMP, "      top._dsl.all_named_objects -= removed_components",
+       "      top._dsl.all_named_objects -= removed_signals", 'R-C15-sites'),
+    _m('add-named-objects-misses-method-ports', COMP, "    top._dsl.all_named_objects |= added_method_ports\n", "", 'R-C15-sites'),
+    _m('connectables-without-method-ports', COMP, "removed_connectables = removed_signals | removed_method_ports",
+       "removed_connectables = removed_signals", 'R-C15'),
+    _m('delete-collects-inports-only', COMP, """                            lambda x: isinstance( x, Signal ), \\
+                            lambda x: isinstance( x, MethodPort ) ] )
+
+      top._dsl.all_components    -= removed_components""", """                            lambda x: isinstance( x, InPort ), \\
+                            lambda x: isinstance( x, MethodPort ) ] )
+
+      top._dsl.all_components    -= removed_components""", 'R-C15'),
+    _m('add-collects-root-only', COMP, """    for c in added_components:
+      top._collect_vars( c )""", """    top._collect_vars( obj )""", 'R-C15-sites'),
+    _m('uncollect-root-only', COMP, """        for x in removed_components:
+          # remove consts
+          removed_consts |= x._dsl.consts
+          # uncollect variables
+          top._uncollect_vars( x )""", """        for x in removed_components:
+          # remove consts
+          removed_consts |= x._dsl.consts
+        top._uncollect_vars( foo )""", 'R-C15-sites'),
+    _m('uncollect-root-only-after-placeholder-repair', COMP, """      for x in removed_components:
+        # remove consts
+        removed_consts |= x._dsl.consts
+        # uncollect variables
+        top._uncollect_vars( x )""", """      for x in removed_components:
+        # remove consts
+        removed_consts |= x._dsl.consts
+      top._uncollect_vars( foo )""", 'R-C15-sites'),
+    _m('fields-registry-not-updated', COMP, "        parent._dsl.NamedObject_fields.remove( foo._dsl.my_name )\n", "", 'R-C15-sites'),
+    _m('list-slot-not-cleared', COMP, "        list_parent[ my_indices[i] ] = None\n", "        pass\n", 'R-C15-sites'),
+    _m('connect-order-keeps-half-removed-pairs', COMP, "if x not in removed_signals and y not in removed_signals:",
+       "if x not in removed_signals or y not in removed_signals:", 'R-C15-sites'),
+    _m('connect-order-not-stored', COMP, "      parent._dsl.connect_order = new_connect_order\n", "", 'R-C15-sites'),
+    _m('collect-all-skips-slices', NAMED, """          elif isinstance( name, tuple ): # name = [1:3]
+            stack.append( obj )
+""", "", 'R-C15-sites', count='first'),
+    _m('replayed-connections-not-propagated', COMP, "      top._dsl.all_adjacency[x].update( adjs )", "      pass", 'R-C15-saved'),
+    # --- keys
+    _m('all-adjacency-back-edges-kept', COMP, "              top._dsl.all_adjacency[other].remove( x )\n", "              pass\n", 'R-C15-keys'),
+    _m('all-adjacency-node-kept', COMP, "          del top._dsl.all_adjacency[x]\n", "          pass\n", 'R-C15'),
+    _m('parent-adjacency-node-kept', COMP, "          del parent._dsl.adjacency[x]\n", "          pass\n", 'R-C15-keys'),
+    _m('parent-adjacency-back-edges-kept', COMP, "              parent._dsl.adjacency[other].remove( x )\n", "              pass\n", 'R-C15-keys'),
+    # --- saved lists
+    _m('saved-writes-restored-into-reads', COMP, "      parent._dsl.upblk_writes[blk].add( eval(obj_name) )",
+       "      parent._dsl.upblk_reads[blk].add( eval(obj_name) )", 'R-C15-saved'),
+    _m('saved-func-calls-not-purged', COMP, "        parent._dsl.func_calls[func] -= to_save\n", "", 'R-C15-saved'),
+    _m('return-order-swapped', COMP, "return saved_connections, saved_upblk_reads, saved_upblk_writes, saved_upblk_calls,",
+       "return saved_connections, saved_upblk_writes, saved_upblk_reads, saved_upblk_calls,", 'R-C15-saved'),
+    _m('caller-passes-func-lists-swapped', COMP, "saved_func_reads, saved_func_writes, saved_func_calls)",
+       "saved_func_writes, saved_func_reads, saved_func_calls)", 'R-C15-saved', count='first'),
+    _m('filter-inverted', COMP, """          if x in removed_connectables:
+            to_save.add( x )
+            saved_upblk_writes.append( (blk, repr(x)) )""", """          if x not in removed_connectables:
+            to_save.add( x )
+            saved_upblk_writes.append( (blk, repr(x)) )""", 'R-C15-saved'),
+    _m('calls-saved-into-reads-list', COMP, "            saved_upblk_calls.append( (blk, repr(x)) )",
+       "            saved_upblk_reads.append( (blk, repr(x)) )", 'R-C15-saved'),
+    _m('purge-from-the-wrong-map', COMP, "        parent._dsl.func_writes[func] -= to_save", "        parent._dsl.func_reads[func] -= to_save", 'R-C15-saved'),
+    _m('saved-name-slice-off-by-one', COMP, '"top"+repr(x)[1:]', '"top"+repr(x)[2:]', 'R-C15-saved'),
+    _m('eval-root-renamed', COMP, """    try:
+      top = s._dsl.elaborate_top
+    except AttributeError:
+      raise NotElaboratedError()
+
+    NamedObject._elaborate_stack = [ parent ]""", """    try:
+      the_top = top = s._dsl.elaborate_top.get_parent_object() or s
+    except AttributeError:
+      raise NotElaboratedError()
+
+    NamedObject._elaborate_stack = [ parent ]""", 'R-C15-saved'),
+    _m('connections-to-removed-neighbours-saved', COMP, "if other not in removed_connectables and other not in removed_consts:",
+       "if other not in removed_consts:", 'R-C15'),
+    # --- naming siblings
+    _m('list-branch-forgets-my-indices', COMP, "      obj._dsl._my_indices  = indices\n", "", 'R-C15-names'),
+    _m('list-branch-level-not-incremented', COMP, "      obj._dsl.level      = parent._dsl.level + 1", "      obj._dsl.level      = parent._dsl.level", 'R-C15-names'),
+    _m('list-branch-full-name-without-indices', COMP, 'obj._dsl.full_name = ( parent._dsl.full_name + "." + u_name )',
+       'obj._dsl.full_name = ( parent._dsl.full_name + "." + name )', 'R-C15-names'),
+    _m('list-branch-regex-matches-field-name', COMP, "              if node.compiled_re.match( u_name ):", "              if node.compiled_re.match( name ):", 'R-C15-names'),
+    _m('list-branch-my-name-is-field-name', COMP, "      obj._dsl._my_name     = name", "      obj._dsl._my_name     = u_name", 'R-C15-names'),
+    _m('list-branch-no-stack-push', COMP, "      NamedObject._elaborate_stack.append( obj )\n", "", 'R-C15-names'),
+    _m('list-branch-hook-not-removed', COMP, """      obj._construct()
+      del NamedObject.__setattr__
+""", """      obj._construct()
+""", 'R-C15-names'),
+    _m('setattr-sibling-changed-alone', NAMED, """            ud._my_name  = name
+            ud.my_name   = u_name""", """            ud._my_name  = ud._short_name = name
+            ud.my_name   = u_name""", 'R-C15-names'),
+    _m('index-walk-off-by-one', COMP, """        i = 0
+        while i < len(my_indices) - 1:""", """        i = 0
+        while i < len(my_indices) - 2:""", 'R-C15-names'),
+    # --- flush / protocol
+    _m('replace-forgets-method-flush', COMP, "    top._flush_pending_method_connections()\n    if check:", "    if check:", 'R-C15-flush', count='first'),
+    _m('replace-with-obj-no-check-by-default', COMP, "def replace_component_with_obj( top, foo, new_obj, check=True ):",
+       "def replace_component_with_obj( top, foo, new_obj, check=False ):", 'R-C15-flush'),
+    _m('method-flush-resolves-value-nets', COMP, "s._dsl.all_method_nets = s._resolve_method_connections()",
+       "s._dsl.all_method_nets = s._resolve_value_connections()", 'R-C15-flush'),
+    _m('delete-does-not-dirty-method-nets', COMP, "      top._dsl._has_pending_method_connections = True\n\n      # We clean up", "\n      # We clean up", 'R-C15-flush'),
+    _m('replace-passes-indexed-name', COMP, "    foo_name    = foo._dsl._my_name\n", "    foo_name    = foo._dsl.my_name\n", 'R-C15-flush', count='first'),
+    _m('replace-drops-kwargs', COMP, "new_obj = cls( *foo._dsl.args, **foo._dsl.kwargs )", "new_obj = cls( *foo._dsl.args )", 'R-C15-flush'),
+    _m('parent-read-after-delete', COMP, """    parent = foo.get_parent_object()
+    foo_name    = foo._dsl._my_name
+    foo_indices = foo._dsl._my_indices
+
+    saved_connections, saved_upblk_reads, saved_upblk_writes, saved_upblk_calls, \\
+      saved_func_reads, saved_func_writes, saved_func_calls = top._delete_component( foo )
+
+    new_obj""", """    foo_name    = foo._dsl._my_name
+    foo_indices = foo._dsl._my_indices
+
+    saved_connections, saved_upblk_reads, saved_upblk_writes, saved_upblk_calls, \\
+      saved_func_reads, saved_func_writes, saved_func_calls = top._delete_component( foo )
+    parent = foo.get_parent_object()
+
+    new_obj""", 'R-C15-flush'),
+    _m('value-getter-skips-flush', COMP, """    s._check_called_at_elaborate_top( "get_all_value_nets" )
+    s._flush_pending_value_connections()""", """    s._check_called_at_elaborate_top( "get_all_value_nets" )""", 'R-C15-flush'),
+]
+
+EQUIV = [
+    _m('l4-uncollect-early-return', L4, """    super()._uncollect_vars( m )
+    if isinstance( m, ComponentLevel4 ):
+      s._dsl.all_update_once   -= m._dsl.update_once
+      s._dsl.all_M_constraints -= m._dsl.M_constraints
+""", """    super()._uncollect_vars( m )
+    if not isinstance( m, ComponentLevel4 ):
+      return
+    s._dsl.all_M_constraints -= m._dsl.M_constraints
+    s._dsl.all_update_once   -= m._dsl.update_once
+"""),
+    _m('l1-difference-update', L1, "      s._dsl.all_upblks -= m._dsl.upblks", "      s._dsl.all_upblks.difference_update( m._dsl.upblks )"),
+    _m('l2-update-as-loop', L2, "      s._dsl.all_upblk_reads.update( m._dsl.upblk_reads )",
+       "      for b, rds in m._dsl.upblk_reads.items():\n        s._dsl.all_upblk_reads[ b ] = rds"),
+    _m('l2-del-as-pop-renamed-var', L2, """      for k in m._dsl.upblks:
+        del s._dsl.all_upblk_reads[k]
+        del s._dsl.all_upblk_writes[k]
+        del s._dsl.all_upblk_calls[k]""", """      for ub in m._dsl.upblks:
+        s._dsl.all_upblk_reads.pop( ub )
+        del s._dsl.all_upblk_writes[ub]
+        del s._dsl.all_upblk_calls[ub]"""),
+    _m('l2-keyed-diff-through-items', L2, """      for k in m._dsl.RD_U_constraints:
+        s._dsl.all_RD_U_constraints[k] -= m._dsl.RD_U_constraints[k]""", """      for k, cons in m._dsl.RD_U_constraints.items():
+        s._dsl.all_RD_U_constraints[k] -= cons"""),
+    _m('l3-collect-without-alias', L3, """      all_ajd = s._dsl.all_adjacency
+      for k, v in m._dsl.adjacency.items():
+        all_ajd[k] |= v""", """      for sig, nbrs in m._dsl.adjacency.items():
+        s._dsl.all_adjacency[sig] |= nbrs"""),
+    _m('l2-uncollect-local-alias', L2, """      for k in m._dsl.WR_U_constraints:
+        s._dsl.all_WR_U_constraints[k] -= m._dsl.WR_U_constraints[k]""", """      wr = m._dsl.WR_U_constraints
+      all_wr = s._dsl.all_WR_U_constraints
+      for k in wr.keys():
+        all_wr[k] -= wr[k]"""),
+    _m('add-full-name-fstring', COMP, 'obj._dsl.full_name = ( parent._dsl.full_name + "." + u_name )',
+       'obj._dsl.full_name = f"{parent._dsl.full_name}.{u_name}"'),
+    _m('add-paramtree-conditions-merged', COMP, """      if parent._dsl.param_tree is not None:
+        if parent._dsl.param_tree.children is not None:
+          for comp_name, node in parent._dsl.param_tree.children.items():
+            if comp_name == u_name:
+              # Lazily create the param tree
+              if obj._dsl.param_tree is None:
+                obj._dsl.param_tree = ParamTreeNode()
+              obj._dsl.param_tree.merge( node )
+
+            elif node.compiled_re is not None:
+              if node.compiled_re.match( u_name ):
+                # Lazily create the param tree
+                if obj._dsl.param_tree is None:
+                  obj._dsl.param_tree = ParamTreeNode()
+                obj._dsl.param_tree.merge( node )
+""", """      ptree = parent._dsl.param_tree
+      if ptree is not None and ptree.children is not None:
+          for comp_name, node in ptree.children.items():
+            if comp_name == u_name:
+              if obj._dsl.param_tree is None:
+                obj._dsl.param_tree = ParamTreeNode()
+              obj._dsl.param_tree.merge( node )
+            elif node.compiled_re is not None and node.compiled_re.match( u_name ):
+                if obj._dsl.param_tree is None:
+                  obj._dsl.param_tree = ParamTreeNode()
+                obj._dsl.param_tree.merge( node )
+"""),
+    _m('delete-sets-reordered-and-commuted', COMP, """      top._dsl.all_components    -= removed_components
+      top._dsl.all_signals       -= removed_signals
+      top._dsl.all_method_ports  -= removed_method_ports
+
+      top._dsl.all_named_objects -= removed_components
+
+      removed_connectables = removed_signals | removed_method_ports
+      top._dsl.all_named_objects -= removed_connectables
+""", """      removed_connectables = removed_method_ports | removed_signals
+      top._dsl.all_named_objects -= removed_connectables
+      top._dsl.all_named_objects.difference_update( removed_components )
+      top._dsl.all_method_ports  -= removed_method_ports
+      top._dsl.all_signals       -= removed_signals
+      top._dsl.all_components    -= removed_components
+"""),
+    _m('saved-connection-name-plain-repr', COMP, 'saved_connections.append( (other, "top"+repr(x)[1:]) )', 'saved_connections.append( (other, repr(x)) )'),
+    _m('to-save-renamed', COMP, """        to_save = set()
+        for x in calls:
+          if x in removed_connectables:
+            to_save.add( x )
+            saved_func_calls.append( (func, repr(x)) )
+        parent._dsl.func_calls[func] -= to_save""", """        gone = set()
+        for port in calls:
+          if port in removed_connectables:
+            saved_func_calls.append( (func, repr(port)) )
+            gone.add( port )
+        parent._dsl.func_calls[func] -= gone"""),
+    _m('flushes-swapped', COMP, """    top._flush_pending_value_connections()
+    top._flush_pending_method_connections()
+    if check:
+      top.check()
+
+  def replace_component_with_obj""", """    top._flush_pending_method_connections()
+    top._flush_pending_value_connections()
+    if check:
+      top.check()
+
+  def replace_component_with_obj"""),
+    _m('paramtreenode-through-star-import', COMP, "from .NamedObject import NamedObject, ParamTreeNode", "from .NamedObject import *"),
+    _m('back-edge-guard-as-not-or', COMP, "if other not in removed_connectables and other not in removed_consts:",
+       "if not (other in removed_connectables or other in removed_consts):"),
+    _m('l4-uncollect-params-renamed', L4, """  def _uncollect_vars( s, m ):
+    super()._uncollect_vars( m )
+    if isinstance( m, ComponentLevel4 ):
+      s._dsl.all_update_once   -= m._dsl.update_once
+      s._dsl.all_M_constraints -= m._dsl.M_constraints
+""", """  def _uncollect_vars( self, comp ):
+    ComponentLevel3._uncollect_vars( self, comp )
+    if isinstance( comp, ComponentLevel4 ):
+      top_dsl = self._dsl
+      top_dsl.all_update_once   -= comp._dsl.update_once
+      top_dsl.all_M_constraints -= comp._dsl.M_constraints
+"""),
+    _m('delete-collects-with-three-single-filters', COMP, """      removed_components, removed_signals, removed_method_ports = \\
+        foo._collect_all( [ lambda x: isinstance( x, Component ), \\
+                            lambda x: isinstance( x, Signal ), \\
+                            lambda x: isinstance( x, MethodPort ) ] )
+""", """      removed_components   = foo._collect_all_single( lambda x: isinstance( x, Component ) )
+      removed_signals      = foo._collect_all_single( lambda y: isinstance( y, Signal ) )
+      removed_method_ports = foo._collect_all_single( lambda z: isinstance( z, MethodPort ) )
+"""),
+    _m('F2-prune-as-len-test-and-pop', L2, """        if not s._dsl.all_WR_U_constraints[k]:
+          del s._dsl.all_WR_U_constraints[k]
+""", """        if len( s._dsl.all_WR_U_constraints[k] ) == 0:
+          s._dsl.all_WR_U_constraints.pop( k )
+"""),
+    _m('F1-removed-consts-popped', COMP, """        if y in top._dsl.all_adjacency:
+          del top._dsl.all_adjacency[y]
+""", """        top._dsl.all_adjacency.pop( y, None )
+"""),
+    _m('F3-interfaces-in-one-collect-call', COMP, """      removed_interfaces = foo._collect_all_single( lambda x: isinstance( x, Interface ) )
+      top._dsl.all_named_objects -= removed_interfaces
+""", """      top._dsl.all_named_objects -= foo._collect_all_single( lambda ifc: isinstance( ifc, Interface ) )
+"""),
+    _m('add-sets-via-update', COMP, "    top._dsl.all_signals       |= added_signals", "    top._dsl.all_signals.update( added_signals )"),
+]
+
+LEVEL_TEXT = ("Static pairing analysis of the replace_component machinery: the additive half of elaboration (_collect_vars at "
+              "every class level, _add_component) and the hand-written subtractive half (_uncollect_vars, _delete_component) are "
+              "abstracted on every run into tables of (aggregate, operator, key domain, operand, guard) and compared row by row; "
+              "the saved_* tuple lists are followed from the map they are filtered from to the map they are restored into; the "
+              "duplicated naming code is compared with its sibling field by field; flush/check protocol order and name resolution "
+              "are checked. It decides, for every hierarchy and every sequence of replacements, the necessary condition that "
+              "whatever is added for a component is removed again (and vice versa) at the level of code shape; it does not "
+              "execute pymtl3 and does not decide trace equality.")
+LEVEL_NOTE = ("Trusted: Python set/dict semantics, components are Component instances (linear ComponentLevel chain, re-checked), "
+              "repr(x) is the full name. Constructs outside the recognised operator vocabulary end in ANALYSIS-ERROR, never a pass. "
+              "Known genuine findings on the current tree are listed in known_findings.json (stale Const keys in all_adjacency, and "
+              "others reported by this module).")
+TECHNIQUE = ("ast extraction of effect tables with loop-variable / alias abstraction, key-domain derivation from writers, "
+             "set-valued abstract evaluation of local sets, sibling comparison after role renaming and guard normalisation, "
+             "scope-based name resolution through the loader")
